@@ -863,7 +863,7 @@ class Body:
                 return Expr("arg", i=l, name=self._names.get(l, ""), ty=self.local_ty(l))
             return Expr("var", name=name, l=l)
         es = []
-        for x in ds[:8]:
+        for x in ds[:64]:
             key = (l, x[0])
             if key in seen:
                 es.append(Expr("var", name=name, l=l))
